@@ -24,6 +24,8 @@ def model_tuples(drv, va, vb, eq, ep):
 
 
 def run(ctx):
+    from harness import fidelity
+    fidelity.check(ctx, ['lines', 'cross'])
     from shapepy import JordanCurve, Primitive
     rng, drv = ctx.rng, ctx.drv
     n = 60 if ctx.quick else 2000
